@@ -282,3 +282,20 @@ package controller
 //@   ensures result is *DefaultFanController && result.(*DefaultFanController) != nil && fresh(result.(*DefaultFanController))
 //@   ensures result.(*DefaultFanController).fan == fan && result.(*DefaultFanController).persistence == persistence && result.(*DefaultFanController).pwmMap == nil
 //@   modifies nothing
+
+// ---- constant curve value (C04) and monotone request (C07): lemmas over the request formula --------------------
+//@ func lemmaRescale
+//@   props C04 C07
+//@   requires 0 <= v1 && v1 <= v2 && v2 <= 255 && 0 <= lo && lo <= hi && hi <= 255
+//@   ensures[C04.min] rescaleOf(0, lo, hi) == lo
+//@   ensures[C04.max] rescaleOf(255, lo, hi) == hi
+//@   ensures[C04.range] lo <= rescaleOf(v1, lo, hi) && rescaleOf(v1, lo, hi) <= hi
+//@   ensures[C07.request] rescaleOf(v1, lo, hi) <= rescaleOf(v2, lo, hi)
+//@   modifies nothing
+
+//@ func lemmaLimitedSteady
+//@   props C04
+//@   requires l != nil && l.maxPwmChangePerCycle != nil && *l.maxPwmChangePerCycle >= 1 && *l.maxPwmChangePerCycle <= 255
+//@   requires 0 <= c && c <= 255 && 0 <= lo && lo < hi && hi <= 255 && current == rescaleOf(c, lo, hi)
+//@   ensures[C04.steady.limited] rescaleOf(control_loop.clampInt(result, 0, 255), lo, hi) == current
+//@   modifies anything
